@@ -42,9 +42,11 @@ FRAME_HYPS = [
     ("fh_pre/fh_post", "the native parts of if / elif / elseif / while / not around eval_condition change no variable", ("fh_cond",)),
 ]
 
-PRELUDE = ["arr = array a b \"c d\"", "arr2 = array x \"\"", "emp = array", "m = map", "emap = map", "eset = set_new", "arreq = array x = y", "map_put ${m} k v", "map_put ${m} k2 \"v 2\"",
+PRELUDE = ["gone = array z",     # released at the END of the prelude: a hole below the newest handles (seed C19-w7-m1: handle keys
+                                    # derived from the table size collide with a live collection once an older one was released)
+           "arr = array a b \"c d\"", "arr2 = array x \"\"", "emp = array", "m = map", "emap = map", "eset = set_new", "arreq = array x = y", "map_put ${m} k v", "map_put ${m} k2 \"v 2\"",
            "s = set_new x y", "rel = array q", "release ${rel}", "a = set hello", "b = set \"a b\"", "n = set 2",
-           "scope::other::keep = set mine", "plain = set 1"]
+           "scope::other::keep = set mine", "plain = set 1", "release ${gone}"]
 # argument texts (already in script syntax)
 VALID = {
     "array_concat": [["${arr}", "${arr2}"], ["${emp}"], ["${arr}"], [], ["${arreq}", "${arr}"], ["${arr}", "nope"], ["${arr}", "${m}"], ["${arr}", "${rel}"], ["${arr}", "${s}"], ["${s}"], ["${s}", "${arr}"]],
@@ -237,7 +239,7 @@ def run(ck):
         f = r.split("\t")
         st = f[0].split(" ")[0]
         dist[d["context"] + ":" + st] = dist.get(d["context"] + ":" + st, 0) + 1
-        if len(f) != 6:
+        if len(f) not in (6, 7):
             # PANIC / FAIL...: a script command must not make the run fail; crashes inside pure-table cases are C07's business
             if d["context"] not in NATIVE_CTX and not st.startswith("FAIL"):
                 found = True
@@ -275,6 +277,10 @@ def run(ck):
             # a command that REPORTS AN ERROR returns no collection: whatever it allocated on the way must be gone
             if st == "ERR" and handles > 0:
                 bad.append("%d collection(s) left behind by an invocation that reported an error" % handles)
+        if int(fields.get("lost", "0")) and d["context"] not in NATIVE_CTX:
+            # no script command releases a collection of its caller (seed C19-w7-m1: the wrapper's argument array was stored under
+            # the key of a live collection and the clean-up then removed it)
+            bad.append("%s collection(s) of the caller are gone from the handle table after the call" % fields["lost"])
         if bad:
             found = True
             if len(ck.violations) < 5:
@@ -316,7 +322,7 @@ def run(ck):
     wpre = prelude + "is_array = set keepme\n"
     wi = ck.impl(["RUN\t%s\t%s\t%s" % (enc_str(wpre), enc_str("out = array_concat =\n"), enc_list(["out"]))], args=())[0].split("\t")
     model_deletes = wm[:1] == ["WITNESS"] and len(wm) == 3 and wm[1] == "T" and wm[2] == "F"
-    impl_gone = dec_list(dict(x.split("=", 1) for x in wi[1:])["gone"]) if len(wi) == 6 else None
+    impl_gone = dec_list(dict(x.split("=", 1) for x in wi[1:])["gone"]) if len(wi) in (6, 7) else None
     witness = {"model": wm, "impl": wi, "impl_gone": impl_gone}
     if model_deletes and impl_gone == ["is_array"]:
         ck.discharged.append("witness model == implementation")
